@@ -489,7 +489,10 @@ def sym_appenders(vc):
 
         def at_end(it, env, r, events):
             ys = yields_of(events)
-            check(it, 'source-resource-appended-as-is', len(ys) == 1 and ys[0].obj is r)
+            # the ROWS of the source's resource are handed on (the very stream, nothing pulled), not the source's wrapper: the
+            # base class pairs them by position with the resource as THIS package describes it (its name made unique there)
+            check(it, 'rows-of-the-source-resource-appended-as-they-are', len(ys) == 1 and ys[0].obj is r.attrs['it'] and
+                  r.stream.drained is False)
             cover(it, 'iter-reachable')
         it.loops['sources.process_resources#L1'] = LoopSpec(at_start=lambda it, env, r: r, at_end=at_end)
         it.run_generator(it.call(it.lib.getattr_(it, s, 'process_resources'), [resources]))
